@@ -2,6 +2,7 @@ import SkgVerif.Model.CrossVal
 import Mathlib.Tactic
 import Mathlib.Data.List.Basic
 import SkgVerif.Gen.Source
+import SkgVerif.Props.Transcribed.C17
 /-!
 # C17 — jackknife cross-validation scores are those of true leave-one-out kriging
 -/
